@@ -52,6 +52,9 @@ class Fixtures(dict):
             "ed": lambda: A.jkey(scen.key("Ed25519"), "native"),
             "x": lambda: A.jkey(scen.key("X25519"), "dict"),
             "oct16": lambda: A.jkey(scen.key("oct16"), "bytes"),
+            "octlong": lambda: A.jkey(scen.key("oct200"), "bytes"),          # longer than the block size of every HS* hash
+            "sender1pu": lambda: A.jkey(scen.key("X25519", 5), "dict"),      # one ECDH-1PU sender talking to several kid-less peers
+            "rcpt1pu": lambda: A.jkey(scen.key("X25519", 6), "dict"),
             "set": lambda: KeySet([A.jkey(scen.key("oct32", 1), "bytes"), A.jkey(scen.key("oct32", 2), "bytes")]),
             "ecset": lambda: KeySet([A.jkey(scen.key("P-256", 1), "pem"), A.jkey(scen.key("P-256", 2), "pem")]),
             "jwsreg": lambda: jws.JWSRegistry(algorithms=["HS256", "ES256", "RS256", "EdDSA", "HS512"]),
@@ -71,7 +74,7 @@ def fixtures(eager=()):
     return f
 
 
-ALL_FIXTURES = ["oct", "ec", "ec_pub", "rsa", "ed", "x", "oct16", "set", "ecset", "jwsreg", "jwereg", "jwereg_custom", "jwsreg_custom"]
+ALL_FIXTURES = ["oct", "ec", "ec_pub", "rsa", "ed", "x", "oct16", "octlong", "sender1pu", "rcpt1pu", "set", "ecset", "jwsreg", "jwereg", "jwereg_custom", "jwsreg_custom"]
 
 
 def ref_token(alg, kind, which=0, kid=None, payload=PT, bad=False):
@@ -208,6 +211,31 @@ def make_ops():
     add("sign with b64 header via plain jws [shared JWSRegistry]", lambda f, d: obs_sign(call(jws.serialize_compact, dict(b64hdr), b"hello", f["oct"], registry=f["jwsreg"]), K("oct32")))
     add("verify b64=false token via plain jws [shared JWSRegistry]", lambda f, d: obs_verify(call(
         jws.deserialize_compact, rfc7797.serialize_compact(dict(b64hdr), "hello", A.jkey(K("oct32"), "bytes"), algorithms=["HS512"]), f["oct"], registry=f["jwsreg"])))
+    for hs in ("HS256", "HS384", "HS512"):
+        add(f"sign {hs} [long oct key]", lambda f, d, hs=hs: obs_sign(call(jws.serialize_compact, {"alg": hs}, PT, f["octlong"], algorithms=[hs]), K("oct200")))
+    add("verify HS384 [long oct key]", lambda f, d: obs_verify(call(jws.deserialize_compact, ref_token("HS384", "oct200"), f["octlong"], algorithms=["HS384"])))
+
+    def enc_1pu(peer):
+        def run(f, d):
+            pub = A.jkey(rjwk.public_of(K("X25519", peer)), "dict")
+            r = call(jwe.encrypt_compact, {"alg": "ECDH-1PU", "enc": "A128GCM"}, PT, pub, algorithms=["ECDH-1PU", "A128GCM"], sender_key=f["sender1pu"])
+            if not r.ok:
+                return ("rej", type(r.exc).__name__)
+            try:
+                return ("encrypted", rjwe.decrypt(r.value, K("X25519", peer), sender_jwk=rjwk.public_of(K("X25519", 5)))[0] == PT)
+            except RefError as e:
+                return ("encrypted-but-reference-cannot-decrypt", repr(e)[:60])
+        return run
+    add("encrypt ECDH-1PU to peer 7 [shared sender key]", enc_1pu(7))
+    add("encrypt ECDH-1PU to peer 8 [shared sender key]", enc_1pu(8))
+
+    def dec_1pu(sender):
+        def run(f, d):
+            tok = rjwe.encrypt({"alg": "ECDH-1PU", "enc": "A128GCM"}, PT, [{"jwk": rjwk.public_of(K("X25519", 6)), "sender_jwk": K("X25519", sender)}], rand=rjwe.Drbg(b"1pu%d" % sender))
+            return obs_decrypt(call(jwe.decrypt_compact, tok, f["rcpt1pu"], algorithms=["ECDH-1PU", "A128GCM"], sender_key=A.jkey(rjwk.public_of(K("X25519", sender)), "dict")))
+        return run
+    add("decrypt ECDH-1PU from sender 7 [shared recipient key]", dec_1pu(7))
+    add("decrypt ECDH-1PU from sender 8 [shared recipient key]", dec_1pu(8))
     add("jwt.encode HS256 [oct key]", lambda f, d: obs_sign(call(jwt.encode, {"alg": "HS256"}, {"iss": "joe"}, f["oct"]), K("oct32")))
     add("jwt.decode HS256 [oct key]", lambda f, d: (lambda r: ("claims", r.value.claims, tuple(sorted(r.value.header))) if r.ok else ("rej", type(r.exc).__name__))(call(jwt.decode, ref_token("HS256", "oct32"), f["oct"])))
     # JWE
